@@ -5,9 +5,9 @@ Model: Impl/C20Activate.lean (import state + activate / deactivate / activate_co
 specification: Impl/C20Spec.lean.  The full statement is `C20_full_statement` at the bottom; it is FALSE for the code
 as it stands (see the `C20_cex_*` theorems); what is proved is listed in the header of each theorem.
 -/
-import SqlframeModel.Lemmas.C20
+import SqlframeModel.Lemmas.C20Side
 namespace Sqlframe.C20
-open Sqlframe.Gen.Act
+open Sqlframe.Gen.Act Sqlframe.Gen.ActS
 
 /-! ## 1. redirection -/
 
@@ -417,12 +417,236 @@ example : let env : Env := { real := [{ name := "pyspark", raises := none, closu
     aget (deactivate env (run env State.fresh [.activate (some "duckdb") none none])).1.mods "pyspark.sql" = some (.real "pyspark.sql") := by
   decide +kernel
 
-/-! ## 9. the full statement -/
-
 /-- does the model satisfy the specification at every step of the event list? -/
 def specOk (env : Env) (evs : List Event) : Bool :=
   ((specTrace env Spec.init evs).zip (trace env State.fresh evs)).all
     (fun x => x.1.1.meets x.2.1 && stateMeets x.1.2 x.2.2)
+
+/-! ## 8a. the caller's config dict is only read -/
+
+/-- the conn/config statements of `activate()` as they stand never store into a dict that may be the caller's
+    (fails to check when `config[...] = conn` is reachable with `config` bound to the caller's dict) -/
+theorem C20_cfg_alias_free : aliasFree cfgStmts false = true := by decide
+
+theorem sessionCreate_caller (env : Env) (st : State) : (sessionCreate env st).1.caller = st.caller := by
+  have h1 := (userImport_side env st (.fromImport ["pyspark", "sql"] "SparkSession")).caller
+  unfold sessionCreate
+  cases hu : userImport env st (.fromImport ["pyspark", "sql"] "SparkSession") with
+  | mk st1 r =>
+    rw [hu] at h1
+    simp only at h1
+    cases r with
+    | error x => exact h1
+    | ok o =>
+      cases o with
+      | cls e n =>
+        simp only
+        split
+        · exact h1
+        · split
+          · exact h1
+          · rw [createVia_side]; exact h1
+      | _ => exact h1
+
+theorem step_callerIntact (env : Env) (st : State) (ev : Event) (h : callerIntact st = true) :
+    callerIntact (step env st ev).1 = true := by
+  cases ev with
+  | activate e c d => exact (activate_keeps C20_cfg_alias_free env e c d st).caller h
+  | deactivate => exact (Keeps.of_side (deactivate_side env st)).caller h
+  | ctxEnter e c d => exact (ctxEnter_keeps C20_cfg_alias_free env e c d st).caller h
+  | ctxExit k => exact (ctxExit_keeps C20_cfg_alias_free env k st).caller h
+  | userImport f =>
+    have h1 := (Keeps.of_side (userImport_side env st f)).caller h
+    simp only [step]
+    cases hu : userImport env st f with
+    | mk st1 r => rw [hu] at h1; cases r <;> exact h1
+  | sessionCreate =>
+    simp only [step]
+    unfold callerIntact at h ⊢
+    rw [sessionCreate_caller]; exact h
+
+/-- **C20_caller_config_untouched.** For every environment and every event list — activations and context blocks
+    with any arguments (the same settings dict object handed to any number of them), deactivations, exits of any
+    kind, user imports, session creations, in any order and number — every config dict the caller ever passed still
+    has exactly the content it was created with: nothing an activation was given (its connection in particular) can
+    travel to a later activation through the caller's own dict. -/
+theorem C20_caller_config_untouched (env : Env) (evs : List Event) :
+    callerIntact (run env State.fresh evs) = true := by
+  have : ∀ (l : List Event) (st : State), callerIntact st = true → callerIntact (run env st l) = true := by
+    intro l
+    induction l with
+    | nil => intro st h; exact h
+    | cons ev rest ih => intro st h; exact ih _ (step_callerIntact env st ev h)
+  exact this evs State.fresh rfl
+
+/-- a non-trivial instance: the same settings dict is handed to two activations, the first of which is also given a
+    connection; the dict keeps its one entry and the second activation's stored configuration has no connection -/
+example :
+    let st := run Env.absent State.fresh [.activate (some "duckdb") (some 1) (some "duckdb"), .deactivate,
+                                          .activate (some "standalone") none (some "duckdb")]
+    st.caller = [("duckdb", callerInit "duckdb")] ∧ st.config = [("sqlframe.input.dialect", .str "duckdb")] := by
+  decide +kernel
+
+/-- … and the stored configuration after `activate(engine, conn, config)` from a cleared configuration is exactly what
+    the call was given (instances over the argument shapes; the settings dict is the caller's shared object) -/
+theorem C20_config_is_given : ∀ c ∈ [none, some 1], ∀ d ∈ [none, some "duckdb"],
+    (activatePre c d State.fresh).config =
+      (match c with | some n => [("sqlframe.conn", Cfg.conn n)] | none => []) ++
+      (match d with | some x => [("sqlframe.input.dialect", Cfg.str x)] | none => []) := by decide +kernel
+
+/-- **counterexample shape (vacuous for the source as it stands).** If `activate` stored the connection into its
+    `config` argument (`config = config or {}; if conn: config[k] = conn; ACTIVATE_CONFIG.update(config)`), the caller's
+    dict would carry the connection into a later activation that is given none. -/
+theorem C20_cex_aliasing :
+    let ss : List CfgStmt := [.rebind false, .connToLocal "sqlframe.conn", .itemsToGlobal]
+    let st1 := (storeCfg (some 1) ss (ensureCaller State.fresh "duckdb", .alias "duckdb")).1
+    let st2 := (storeCfg none ss ({ st1 with config := [] }, .alias "duckdb")).1
+    aliasFree ss false = false ∧ callerIntact st1 = false ∧ aget st2.config "sqlframe.conn" = some (.conn 1) := by
+  decide +kernel
+
+/-! ## 8b. session creation that fails leaves nothing behind -/
+
+/-- `DuckDBSession.__init__` as it stands makes the object look initialised (the base initialiser sets `_connection`,
+    which the guard tests) only after every use of the connection that can raise (fails to check otherwise) -/
+theorem C20_init_marks_last : marksLast duckInit = true := by decide
+
+theorem sessionCreate_pristine (env : Env) (st : State) (hp : st.inst.pristine = true)
+    (hno : ∀ e c d, (sessionCreate env st).2 ≠ .session e c d) : (sessionCreate env st).1.inst.pristine = true := by
+  have h1 := (userImport_side env st (.fromImport ["pyspark", "sql"] "SparkSession")).inst
+  unfold sessionCreate at hno ⊢
+  cases hu : userImport env st (.fromImport ["pyspark", "sql"] "SparkSession") with
+  | mk st1 r =>
+    rw [hu] at h1 hno
+    simp only at h1
+    have hp1 : st1.inst.pristine = true := by rw [h1]; exact hp
+    cases r with
+    | error x => exact hp1
+    | ok o =>
+      cases o with
+      | cls e n =>
+        simp only at hno ⊢
+        split
+        · exact hp1
+        · split
+          · exact hp1
+          · rename_i h2 h3
+            simp only [h2, h3, if_false] at hno
+            exact createVia_pristine C20_init_marks_last env e st1 hp1 hno
+      | _ => exact hp1
+
+theorem step_pristine (env : Env) (st : State) (ev : Event) (hp : st.inst.pristine = true)
+    (hno : ∀ e c d, (step env st ev).2 ≠ .session e c d) : (step env st ev).1.inst.pristine = true := by
+  cases ev with
+  | activate e c d => simp only [step]; rw [(activate_keeps C20_cfg_alias_free env e c d st).inst]; exact hp
+  | deactivate => simp only [step]; rw [(deactivate_side env st).inst]; exact hp
+  | ctxEnter e c d => simp only [step]; rw [(ctxEnter_keeps C20_cfg_alias_free env e c d st).inst]; exact hp
+  | ctxExit k => simp only [step]; rw [(ctxExit_keeps C20_cfg_alias_free env k st).inst]; exact hp
+  | userImport f =>
+    have h1 := (userImport_side env st f).inst
+    simp only [step]
+    cases hu : userImport env st f with
+    | mk st1 r => rw [hu] at h1; cases r <;> (simp only at h1 ⊢; rw [h1]; exact hp)
+  | sessionCreate => exact sessionCreate_pristine env st hp hno
+
+/-- **C20_failed_sessions_leave_nothing.** For every environment (any set of unusable connections) and every event
+    list of any length — activations, context blocks left in any way, deactivations, imports, and any number of
+    `getOrCreate()` calls none of which returned a session (they raised: a connection that cannot be used, an unknown
+    dialect, nothing active; or yielded a non-sqlframe object) — started in a state without a usable session object,
+    there is still no usable session object afterwards: a session creation that fails leaves nothing that a later
+    `getOrCreate()` of the duckdb engine would return as it is. -/
+theorem C20_failed_sessions_leave_nothing (env : Env) (evs : List Event) :
+    ∀ st : State, st.inst.pristine = true →
+      (∀ os ∈ trace env st evs, ∀ e c d, os.1 ≠ .session e c d) →
+      (run env st evs).inst.pristine = true := by
+  induction evs with
+  | nil => intro st hp _; exact hp
+  | cons ev rest ih =>
+    intro st hp hno
+    simp only [run]
+    apply ih
+    · exact step_pristine env st ev hp (fun e c d => hno ((step env st ev).2, (step env st ev).1) (by simp [trace]) e c d)
+    · intro os hos
+      exact hno os (by simp only [trace, List.mem_cons]; exact Or.inr hos)
+
+/-- **C20_session_after_failures.** In any state without a usable session object (in particular after any history of
+    failed creations: `C20_failed_sessions_leave_nothing`), if `from pyspark.sql import SparkSession` yields the duckdb
+    engine's session class and the activation gave a usable connection n and an accepted dialect,
+    `SparkSession.builder.getOrCreate()` returns a DuckDB session on exactly that connection with that dialect. -/
+theorem C20_session_after_failures (env : Env) (st st1 : State) (n : Nat)
+    (himp : userImport env st (.fromImport ["pyspark", "sql"] "SparkSession") = (st1, .ok (.cls "duckdb" "DuckDBSession")))
+    (hp : st.inst.pristine = true)
+    (hc : (applyCfg (getBuilder st1 "duckdb") st1.config).conn = some n)
+    (hgood : env.badConns.contains n = false)
+    (hd : validDialects.contains (applyCfg (getBuilder st1 "duckdb") st1.config).dialect = true) :
+    (sessionCreate env st).2 = .session "duckdb" (.given n) (applyCfg (getBuilder st1 "duckdb") st1.config).dialect := by
+  have h1 := (userImport_side env st (.fromImport ["pyspark", "sql"] "SparkSession")).inst
+  rw [himp] at h1
+  simp only at h1
+  have hp1 : st1.inst.pristine = true := by rw [h1]; exact hp
+  have hinit : runInit env duckInit (.given n) none = (some (.given n), none) := by
+    have hb : connIsBad env (.given n) = false := hgood
+    simp [duckInit, runInit, hb]
+  unfold sessionCreate
+  rw [himp]
+  have hpre : (some "DuckDBSession" == (prefixOf "duckdb").map (· ++ "Session")) = true := by decide
+  simp only [hpre, Bool.not_true, Bool.false_eq_true, if_false, Bool.or_true, Bool.true_or, decide_true]
+  exact createVia_good env st1 n hp1 hc hgood hd hinit
+
+/-- the environment of the examples below: connection 3 cannot be used -/
+def faultEnv : Env := { real := [], brokenPkgs := [], badConns := [3] }
+
+/-- a history of failed session creations (an unusable connection inside a plain activation and inside a context block
+    left by the exception, an unknown dialect), then an activation that gives everything anew -/
+def exFailures : List Event :=
+  [.activate (some "duckdb") (some 3) none, .sessionCreate, .deactivate,
+   .ctxEnter (some "duckdb") (some 3) (some "nope"), .sessionCreate, .ctxExit .exn,
+   .activate (some "duckdb") (some 2) (some "duckdb")]
+
+/-- the hypotheses of the two theorems are met by that history, and the conclusion is the session the specification
+    demands -/
+example : (∀ os ∈ trace faultEnv State.fresh exFailures, ∀ e c d, os.1 ≠ .session e c d) ∧
+    (run faultEnv State.fresh exFailures).inst = .allocated "duckdb" ∧
+    (userImport faultEnv (run faultEnv State.fresh exFailures) (.fromImport ["pyspark", "sql"] "SparkSession")).2
+      = .ok (.cls "duckdb" "DuckDBSession") ∧
+    (applyCfg (getBuilder (run faultEnv State.fresh exFailures) "duckdb") (run faultEnv State.fresh exFailures).config).conn = some 2 ∧
+    (sessionCreate faultEnv (run faultEnv State.fresh exFailures)).2 = .session "duckdb" (.given 2) "duckdb" ∧
+    violated faultEnv (exFailures ++ [.sessionCreate]) = [] ∧ specOk faultEnv (exFailures ++ [.sessionCreate]) = true := by
+  refine ⟨?_, by decide +kernel, by decide +kernel, by decide +kernel, by decide +kernel, by decide +kernel, by decide +kernel⟩
+  have : (trace faultEnv State.fresh exFailures).all (fun os => match os.1 with | .session _ _ _ => false | _ => true) = true := by
+    decide +kernel
+  intro os hos e c d heq
+  have := List.all_eq_true.mp this os hos
+  rw [heq] at this
+  cases this
+
+/-- **counterexample for H_sessionSingleton (failed creation).** `activate("duckdb", conn=<unusable>); getOrCreate()`
+    raises; `deactivate(); activate("standalone"); getOrCreate()` then returns the half-built DuckDBSession object
+    (no connection): `_BaseSession.__new__` stored it before `__init__` ran. -/
+theorem C20_cex_sessionSingleton_failed : singletonInNew = true →
+    (trace faultEnv State.fresh
+      [.activate (some "duckdb") (some 3) none, .sessionCreate, .deactivate, .activate (some "standalone") none none,
+       .sessionCreate]).getLast?.map (·.1) = some (.session "duckdb" .none "spark") := by decide +kernel
+
+/-- **counterexample for H_builderFresh.** `activate("duckdb", config={dialect: "nope"}); getOrCreate()` raises;
+    after `deactivate(); activate("duckdb")` the next `getOrCreate()` raises again: the class-level builder still holds
+    the dialect, although the stored configuration is empty. -/
+theorem C20_cex_builderFresh :
+    let evs := [Event.activate (some "duckdb") none (some "nope"), .sessionCreate, .deactivate,
+                .activate (some "duckdb") none none, .sessionCreate]
+    (trace Env.absent State.fresh evs).getLast?.map (·.1) = some (.raised .valueError) ∧
+    (run Env.absent State.fresh evs).config = [] ∧
+    (specTrace Env.absent Spec.init evs).getLast?.map (·.1) = some (.session "duckdb" .default "spark") ∧
+    violated Env.absent evs = ["H_builderFresh"] := by decide +kernel
+
+/-- **counterexample shape (vacuous for the source as it stands).** With the base initialiser BEFORE the registration
+    that can raise (`super().__init__(conn or duckdb.connect()); …; self._conn.create_function(…)`), a failed
+    `__init__` leaves `_connection` set: the guard of the next `__init__` skips the object. -/
+theorem C20_cex_initOrder :
+    let steps : List InitStep := [.superInit true, .setAttr "_last_result", .useConn true [.importError]]
+    marksLast steps = false ∧ runInit faultEnv steps (.given 3) none = (some (.given 3), some .exception) := by
+  decide +kernel
+
+/-! ## 9. the full statement -/
 
 /-- **C20 at full strength**: in every environment, for every event list (activations, deactivations, context
     enter/exit of any kind, user imports, session creation), every event's outcome and the import state after it
